@@ -131,6 +131,7 @@ class Fn:
         self.repo = None
         self.loop_exit = []
         self.uses_fuel = False
+        self.deps_used = set()
 
     # ---------------------------------------------------------------- expressions
     def lval_name(self, n):
@@ -379,6 +380,12 @@ class Fn:
                     acc.add(self.lval_name(n["inner"][1]))
             except Unsupported:
                 pass
+            try:
+                d = self.dep_call(n)
+                if d is not None:
+                    acc.add(d[2])
+            except Unsupported:
+                pass
         for c in n.get("inner", []):
             if isinstance(c, dict):
                 self.assigned(c, acc)
@@ -588,6 +595,11 @@ class Fn:
                 out += self.assign((v["name"], None), wrap(rhs, ty))
             return out + self.S(rest, k)
         if kind == "ReturnStmt":
+            dep = self.dep_call(n["inner"][0]) if n.get("inner") else None
+            if dep is not None:
+                fname, src, dst = dep
+                self.deps_used.add(fname)
+                return "let '(%s, depret) := dep_%s %s in\n" % (dst, fname, src) + self.ret("depret")
             e = self.E(n["inner"][0]) if n.get("inner") else None
             return self.ret(e)
         if kind in ("BinaryOperator", "CompoundAssignOperator") and n["opcode"].endswith("=") and \
@@ -684,7 +696,7 @@ class Fn:
             else:
                 init, cond, inc, body = None, n["inner"][0], None, n["inner"][1]
             loopbody = [body] + ([inc] if inc is not None and inc.get("kind") else [])
-            if self.has_break(body):
+            if self.has_break(body) or self.has_return(body):
                 return (self.S([init], lambda: self.break_loop(cond, body, inc, rest, k))
                         if init is not None and init.get("kind") else self.break_loop(cond, body, inc, rest, k))
 
@@ -802,6 +814,29 @@ class Fn:
         text = self.S([body], lambda: done(None))
         return out + text
 
+    def dep_call(self, n):
+        """polyseed_deps.<transform>(src, dst): (name, Gallina source string, destination buffer name)"""
+        while n.get("kind") in ("ImplicitCastExpr", "ParenExpr"):
+            n = n["inner"][0]
+        if n.get("kind") != "CallExpr":
+            return None
+        callee = n["inner"][0]
+        while callee.get("kind") in ("ImplicitCastExpr", "ParenExpr"):
+            callee = callee["inner"][0]
+        if callee.get("kind") != "MemberExpr":
+            return None
+        try:
+            base = self.lval_name(callee["inner"][0])
+        except Unsupported:
+            return None
+        if base != "polyseed_deps" or callee["name"] not in ("u8_nfkd", "u8_nfc"):
+            return None
+        src = self.char_ptr_expr(n["inner"][1])
+        dst = self.lval_name(n["inner"][2])
+        if src is None:
+            raise Unsupported("source of the transform is not a string")
+        return callee["name"], src, dst
+
     def has_break(self, n):
         """a break that belongs to this loop (not to a nested one)"""
         if n.get("kind") == "BreakStmt":
@@ -825,22 +860,35 @@ class Fn:
             self.consts.pop(x, None)
         saved = dict(self.consts)
         cc = self.C(cond) if cond is not None and cond.get("kind") else "true"
-        state = ["brk"] + m
+        with_ret = self.has_return(body)
+        flags = ["brk"] + (["rflag", "rval"] if with_ret else [])
+        state = flags + m
 
-        def exit_(broke):
-            return "Some " + self.tup([("true" if broke else "false")] + [lit(self.consts[x]) if x in self.consts else x for x in m])
+        def exit_(broke, retval=None):
+            fl = ["true" if (broke or retval is not None) else "false"]
+            if with_ret:
+                fl += ["true", retval] if retval is not None else ["false", "0"]
+            return "Some " + self.tup(fl + [lit(self.consts[x]) if x in self.consts else x for x in m])
         self.loop_exit.append(exit_)
+        saved_hook = self.ret_hook
+        if with_ret:
+            self.ret_hook = lambda e: exit_(True, e if e is not None else "0")
         inc_stmts = [inc] if inc is not None and inc.get("kind") else []
         b = self.S([body] + inc_stmts, lambda: exit_(False))
+        self.ret_hook = saved_hook
         self.loop_exit.pop()
         self.consts = saved
         for x in m:
             self.consts.pop(x, None)
         cond_txt = "negb brk" if cc == "true" else "(negb brk && %s)" % cc
+        init_list = (init_vals.strip("()").split(", ") if len(m) > 1 else [init_vals]) if m else []
+        init_state = self.tup(["false"] + (["false", "0"] if with_ret else []) + init_list)
+        after = self.S(rest, k)
+        if with_ret:
+            after = "if rflag then (%s) else (\n%s)" % (self.ret("rval"), after)
         return ("match whileF fuel (fun st => let %s := st in %s) (fun st => let %s := st in\n%s) %s with\n"
                 "| None => None\n| Some st => let %s := st in\n%s\nend") % (
-            self.pat(state), cond_txt, self.pat(state), b, self.tup(["false"] + init_vals.strip("()").split(", ") if m else ["false"]),
-            self.pat(state), self.S(rest, k))
+            self.pat(state), cond_txt, self.pat(state), b, init_state, self.pat(state), after)
 
     def const_of(self, n):
         try:
@@ -891,6 +939,8 @@ class Fn:
             extra.append(("fuel", "nat"))
         if "(rdc sgn " in text:
             extra.append(("sgn", "bool"))
+        for dn in sorted(self.deps_used):
+            extra.append(("dep_" + dn, "list Z -> list Z * Z"))
         self.extra_params = [p[0] for p in extra]
         return "Definition %s %s : %s :=\n%s." % (self.name, " ".join("(%s : %s)" % p for p in extra + params), rty, text)
 
@@ -953,6 +1003,7 @@ TARGETS = [
     ("features.c", "polyseed_enable_features", [("reserved_features", "Z"), ("mask", "Z")], ["reserved_features"], [], "Z * Z"),
     ("gf.c", "polyseed_data_to_poly",
      [("data_birthday", "Z"), ("data_features", "Z"), ("data_secret", "list Z"), ("poly_coeff", "list Z")], ["poly_coeff"], [], "list Z"),
+    ("gf.c", "utf8_nfkd_lazy", [("str", "list Z"), ("norm", "list Z")], ["norm"], [], "list Z * Z"),
     ("lang.c", "compare_str", [("key", "list Z"), ("elm", "list Z")], [], [], "Z"),
     ("lang.c", "compare_prefix", [("key", "list Z"), ("elm", "list Z"), ("n", "Z")], [], [], "Z"),
     ("lang.c", "compare_str_noaccent", [("key", "list Z"), ("elm", "list Z")], [], [], "Z"),
